@@ -6,12 +6,14 @@
 package main
 
 import (
+	"context"
 	"fmt"
 	"os"
 	"reflect"
 	"sort"
 	"strconv"
 	"strings"
+	"time"
 
 	gsync "verif/harness/instr/gsyncx"
 	"verif/harness/internal/hx"
@@ -365,6 +367,37 @@ func (g *gImpl) probe() string {
 	return out
 }
 
+// deadline: real-time smoke of WaitTimeout / WaitCTX at rest (all goroutines finished): with a
+// positive count both must report their deadline promptly, with count zero both return nil.
+func (g *gImpl) deadline() string {
+	for i := range g.threads {
+		if !g.s.Done(i) {
+			return "bad-op"
+		}
+	}
+	res := make(chan string, 1)
+	go func() {
+		e1 := g.wg.WaitTimeout(2 * time.Millisecond)
+		ctx, cancel := context.WithTimeout(context.Background(), 2*time.Millisecond)
+		defer cancel()
+		e2 := g.wg.WaitCTX(ctx)
+		switch {
+		case e1 == nil && e2 == nil:
+			res <- "released"
+		case e1 != nil && e2 != nil:
+			res <- "deadline"
+		default:
+			res <- fmt.Sprintf("mixed:%v:%v", e1 != nil, e2 != nil)
+		}
+	}()
+	select {
+	case r := <-res:
+		return r
+	case <-time.After(2 * time.Second):
+		return "hang"
+	}
+}
+
 func (g *gImpl) Exec(line string) string {
 	ws := strings.Fields(line)
 	if len(ws) >= 2 && ws[0] == "case" && ws[1] == "gsync" {
@@ -383,6 +416,9 @@ func (g *gImpl) Exec(line string) string {
 	}
 	if len(ws) == 2 && ws[0] == "gs" && ws[1] == "probe" {
 		return g.probe()
+	}
+	if len(ws) == 2 && ws[0] == "gs" && ws[1] == "deadline" {
+		return g.deadline()
 	}
 	if len(ws) == 2 && ws[0] == "gs" && ws[1] == "state" {
 		return g.state()
